@@ -142,9 +142,20 @@ def sim_property(pid, tier, prefixes, note, extra_parts=()):
         run_mc(pid, tier, out)
     for part in extra_parts:
         part(pid, tier, out)
-    # a few executions written out
-    for m in meta[:3]:
-        out["samples"].append({"trace": m})
+    # a few executions written out (configuration + the first events TLC judged)
+    for m in meta[:2] + [x for x in meta if x["tag"] not in ("main",)][:2]:
+        try:
+            tr = core.load_trace(bdir, m)
+            c = tr["cfg"]
+            out["samples"].append({"trace": m, "cfg": {
+                "machines": c["machines"], "alg": c["alg"], "arrays": c["arrays"], "maxIngest": c["maxIngest"],
+                "hot": [c["hotCap"], c["hotRate"]], "cold": [c["coldCap"], c["coldRate"]],
+                "obs": [{k: o[k] for k in ("o", "est", "dur", "demand", "ing", "rate")} |
+                        {"nodes": len(o["wf"]["nodes"]), "edges": len(o["wf"]["edges"])} for o in c["obs"]],
+                "delays": c["extra"][:4]},
+                "first_events": [[s["t"], s["lab"]["kind"], s["lab"]["o"], s["lab"]["k"]] for s in tr["steps"][:14]]})
+        except Exception:  # samples are illustrative only
+            out["samples"].append({"trace": m})
     cov = {
         "states": max(out["states"], 1), "transitions": max(out["transitions"], 1),
         "traces_validated_against_impl": batch["ntraces"] + out.get("extra_traces", 0),
